@@ -39,6 +39,16 @@ def build_driver(ctx, name, withz=False):
     return ctx.build_driver(name, withz=withz)
 
 
+def unlimited_stack(ctx, drv):
+    """the extracted reader is not tail recursive over the lines of a template / the entries of a file (65536 template lines
+    overflow the default 8 MiB stack): start the driver through a wrapper that lifts the limit"""
+    d = ctx.mkscratch('drvwrap')
+    w = os.path.join(d, os.path.basename(drv))
+    open(w, 'w').write('#!/bin/sh\nulimit -s unlimited 2>/dev/null || ulimit -s 1000000 2>/dev/null\nexec %s "$@"\n' % drv)
+    os.chmod(w, 0o755)
+    return w
+
+
 class World:
     """A scratch root with real directories, a plain file, glob targets; and the facts about this machine the
     model takes as inputs."""
@@ -211,6 +221,20 @@ def run_config(world, case, conf, stdin):
         return (-999, b'', b'timeout')
 
 
+def run_driver_par(drv, lines, procs=8):
+    """common.run_driver over several driver processes: the questions are dealt round-robin (the expensive ones - long strings -
+    come in runs), the answers put back in order.  The driver keeps no state between lines."""
+    if len(lines) < 2 * procs:
+        return common.run_driver(drv, lines)
+    parts = [lines[i::procs] for i in range(procs)]
+    with ThreadPoolExecutor(procs) as ex:
+        outs = list(ex.map(lambda ls: common.run_driver(drv, ls), parts))
+    res = [None] * len(lines)
+    for i, o in enumerate(outs):
+        res[i::procs] = o
+    return res
+
+
 def driver_rounds(world, drv, questions, cases, mkq):
     """questions: list of (case index, prefix tokens); the driver is asked with the base environment, every
     reported miss is resolved against the real world and the question repeated until no miss remains.
@@ -222,7 +246,7 @@ def driver_rounds(world, drv, questions, cases, mkq):
         if not todo:
             break
         lines = [mkq(questions[i][1], envs[i]) for i in todo]
-        out = common.run_driver(drv, lines)
+        out = run_driver_par(drv, lines)
         nxt = []
         for i, a in zip(todo, out):
             if ' ? ' in a or a.endswith(' ?'):
